@@ -105,6 +105,11 @@ fn run_g<A: SxK>(c: &Case, out: &mut Out) {
                 out.check(matches!(&d, Ok((t, (l, e))) if *t == text && *l == k && !*e), || {
                     (format!("{cn}/kmer<{sn}>/display-or-len-wrong"), format!("k-mer of {text}: display/len/is_empty = {:?}", d))
                 });
+                // width / alignment flags pad the whole k-mer (or are ignored); they never break it up
+                out.stage = "Kmer display with width flags";
+                let pd = out.catch(|| api.display_padded(want, k + 3));
+                let okp = matches!(&pd, Ok(s) if s.split('|').count() == 3 && s.split('|').all(|part| part.trim() == text));
+                out.check(okp, || (format!("{cn}/kmer<{sn}>/display-with-width-flags-breaks-up-the-text"), format!("k-mer {text} formatted with width {}: {:?}", k + 3, pd)));
                 if sid == Sid::Usize {
                     out.stage = "Kmer Deref/AsRef/Seq::from/== &str/TryFrom<Seq>";
                     let r = out.catch(|| {
